@@ -1628,6 +1628,7 @@ DECODE_MORE:
         *ptbuf = prevBuf;
         *ptlen = len;
         ssl->inlen -= processed;
+        ssl->inDone = processed;
         return MATRIXSSL_RECEIVED_ALERT;
 
     case SSL_PARTIAL:
@@ -1705,6 +1706,7 @@ DECODE_MORE:
          .      len is length of unencrypted data ready for user processing
  */
         ssl->inlen -= processed;
+        ssl->inDone = processed;
         psAssert((uint32) ssl->inlen == start);
 
         /* Call user plaintext data handler */
@@ -1773,8 +1775,6 @@ DECODE_MORE:
  */
 int32 matrixSslProcessedData(ssl_t *ssl, unsigned char **ptbuf, uint32 *ptlen)
 {
-    uint32 ctlen;
-
     if (!ssl || !ptbuf || !ptlen)
     {
         return PS_ARG_FAIL;
@@ -1786,19 +1786,12 @@ int32 matrixSslProcessedData(ssl_t *ssl, unsigned char **ptbuf, uint32 *ptlen)
     /* Move any remaining data to the beginning of the buffer */
     if (ssl->inbuf && ssl->inlen > 0)
     {
-        ctlen = ssl->rec.len + ssl->recordHeadLen;
-        if (ssl->flags & SSL_FLAGS_AEAD_R)
-        {
-            /* This overhead was removed from rec.len after the decryption
-                to keep buffer logic working. */
-            if (!(USING_TLS_1_3(ssl)))
-            {
-                ctlen += AEAD_TAG_LEN(ssl);
-                ctlen += AEAD_NONCE_LEN(ssl);
-            }
-        }
-        Memmove(ssl->inbuf, ssl->inbuf + ctlen, ssl->inlen);
+        /* The rest starts where the decoder stopped: that is not always one
+           record from the front (skipped DTLS records, ignored TLS 1.3
+           ChangeCipherSpec records in front of the delivered one). */
+        Memmove(ssl->inbuf, ssl->inbuf + ssl->inDone, ssl->inlen);
     }
+    ssl->inDone = 0;
     /* Shrink inbuf to default size once inlen < default size */
     revertToDefaultBufsize(ssl, SSL_INBUF);
 
